@@ -6,6 +6,7 @@ mod c04;
 mod c05;
 mod c12;
 mod c19;
+mod c20;
 mod choice;
 mod engine;
 mod refdiff;
@@ -87,6 +88,7 @@ fn dispatch(a: &Args, digest_only: bool) -> i32 {
         "C05" => drive(&c05::C05, a, digest_only),
         "C12" => drive(&c12::C12, a, digest_only),
         "C19" => drive(&c19::C19, a, digest_only),
+        "C20" => drive(&c20::C20, a, digest_only),
         other => {
             eprintln!("harness error: no engine for {other}");
             2
